@@ -343,9 +343,13 @@ def shard_worker(args):
         plan["_index"] = idx
         t0 = time.time()
         try:
-            r = run_plan(mod, plan)
+            r = run_plan(mod, plan, limit_s=getattr(mod, "PLAN_LIMIT_S", 300))
         except BaseException as e:  # harness error: never a violation
             out.append({"index": idx, "seed": seed, "error": "".join(traceback.format_exception(e))[-3000:], "plan": plan})
+            if isinstance(e, _Timeout):
+                n_timeouts = sum(1 for o in out if "error" in o and "_Timeout" in o["error"])
+                if n_timeouts >= 2:
+                    break  # the code under test hangs; do not burn the whole budget on it
             continue
         rec = {
             "index": idx,
